@@ -21,10 +21,18 @@ def patterns_for(tb, sk):
     """-> list of (label, pattern term over variables X, Y [, bound role])"""
     out = []
     num = universe.C('Number')
-    for bound in (None, num):
+    bounds = [(None, ''), (num, ':Number')]
+    # a bound that is itself parameterized over another BOUNDED variable (the generator draws bounds from the
+    # types in scope, earlier type parameters included): X : G<V>, V : Number -- one per declared variance
+    seen_var = set()
+    for g in sk.generic_names():
+        ps = tb.cls[g].params
+        if len(ps) == 1 and ps[0][1] not in seen_var and ps[0][2] is None:
+            seen_var.add(ps[0][1])
+            bounds.append((('c', g, (('t', ('v', 'V', num)),)), ':%s<V:Number>' % g))
+    for bound, bl in bounds:
         X = ('v', 'X', bound)
         Y = ('v', 'Y', None)
-        bl = '' if bound is None else ':Number'
         out.append(('X' + bl, X))
         for name in sk.generic_names():
             info = tb.cls[name]
@@ -47,7 +55,7 @@ def patterns_for(tb, sk):
 
 def open_vars(t):
     if t[0] == 'v':
-        return [t]
+        return ([] if t[2] is None else open_vars(t[2])) + [t]      # variables of the bound first
     if t[0] == 'c':
         o = []
         for a in t[2]:
@@ -57,11 +65,49 @@ def open_vars(t):
     return []
 
 
-def matches(tb, target, pat):
+def exist_bound(tb, b, m=None):
+    """A bound that mentions other variables, read existentially (liberal): the variables sigma binds are
+    replaced by their values, every remaining one by the projection that admits all of its instances
+    (`out B` at an invariant/covariant position, `*` at a contravariant one or when unbounded).
+    -> ground term, or None when nothing can be demanded"""
+    if b is None:
+        return None
+    if m:
+        b = subst_args(b, m)
+        if b is None:
+            return None
+    return _exist(tb, b)
+
+
+def _has_vars(t):
+    return t[0] == 'v' or (t[0] == 'c' and any(a[0] != '*' and _has_vars(a[1]) for a in t[2]))
+
+
+def _exist(tb, t):
+    if t[0] == 'v':
+        return _exist(tb, t[2]) if t[2] is not None else None
+    if t[0] != 'c' or not t[2] or not _has_vars(t):
+        return t
+    info = tb.cls[t[1]]
+    args = []
+    for a, p in zip(t[2], info.params):
+        if a[0] == '*' or not _has_vars(a[1]):
+            args.append(a)
+            continue
+        inner = _exist(tb, a[1])
+        if inner is None or a[0] == 'in' or (a[0] == 't' and p[1] == 'in'):
+            args.append(('*',))
+        else:
+            args.append(('out', inner))
+    return ('c', t[1], tuple(args))
+
+
+def matches(tb, target, pat, m=None):
     """target == pat up to the variables pat still contains; at such a position the target's
     component must satisfy the variable's bound.  -> (ok, reason)"""
     if pat[0] == 'v':
-        if pat[2] is not None and target[0] in ('c', 'nothing') and not rsub.may(tb, target, pat[2]):
+        b = exist_bound(tb, pat[2], m)
+        if b is not None and target[0] in ('c', 'nothing') and not rsub.may(tb, target, b):
             return False, 'component %s at open variable %s violates its bound' % (rsub.show(target), pat[1])
         return True, ''
     if pat[0] != target[0]:
@@ -76,7 +122,7 @@ def matches(tb, target, pat):
                 continue
             if a[0] != b[0]:
                 return False, 'projection differs (%s vs %s)' % (a[0], b[0])
-            ok, why = matches(tb, a[1], b[1])
+            ok, why = matches(tb, a[1], b[1], m)
             if not ok:
                 return False, why
         return True, ''
@@ -106,9 +152,11 @@ def check_table(sk, lang, tier, found, stats):
     pats = patterns_for(tb, sk)
     for label, pterm in pats:
         vars_ = {}
+        vterm = {}
         for v in open_vars(pterm):
             if v[1] not in vars_:
-                vars_[v[1]] = tp.TypeParameter(v[1], tp.Invariant, conv(v[2]) if v[2] is not None else None)
+                vars_[v[1]] = tp.TypeParameter(v[1], tp.Invariant, conv(v[2], vars_) if v[2] is not None else None)
+                vterm[v[1]] = v
         try:
             ipat = conv(pterm, vars_)
         except Exception:  # noqa
@@ -133,6 +181,9 @@ def check_table(sk, lang, tier, found, stats):
                 m = {}
                 bad = False
                 for k, v in sigma.items():
+                    if isinstance(k, tp.TypeParameter) and v is not None:
+                        m[k.name] = cv.arg(v)
+                for k, v in sigma.items():
                     if not isinstance(k, tp.TypeParameter):
                         rec(found, 'non-variable-key', pattern_shape(label), sk, lang, target, label, same_type, str(k))
                         bad = True
@@ -142,11 +193,11 @@ def check_table(sk, lang, tier, found, stats):
                             '%s := None' % k.name)
                         bad = True
                         continue
-                    a = cv.arg(v)
-                    m[k.name] = a          # an argument: a type, or a projection taken from the target
-                    b = vars_.get(k.name)
-                    if a[0] != '*' and b is not None and b.bound is not None and a[1][0] in ('c', 'nothing'):
-                        if a[0] in ('t', 'out') and not rsub.may(tb, a[1], cv.term(b.bound)):
+                    a = m[k.name]          # an argument: a type, or a projection taken from the target
+                    b = vterm.get(k.name)
+                    bt = exist_bound(tb, b[2], m) if b is not None else None
+                    if a[0] != '*' and bt is not None and a[1][0] in ('c', 'nothing'):
+                        if a[0] in ('t', 'out') and not rsub.may(tb, a[1], bt):
                             rec(found, 'assignment-violates-bound', pattern_shape(label), sk, lang, target, label,
                                 same_type, '%s := %s' % (k.name, rsub.show(a[1])))
                             bad = True
@@ -170,7 +221,7 @@ def check_table(sk, lang, tier, found, stats):
                 ok = False
                 why = ''
                 for c in cands:
-                    ok, why = matches(tb, c, spat)
+                    ok, why = matches(tb, c, spat, m)
                     if ok:
                         break
                 if not ok:
